@@ -77,7 +77,7 @@ static bool must_fail(int cls) {
   uint64_t idx = g_cnt[cls]++;
   if (g_needle && cls == kArena) note_stack(idx);
   bool f = g_random ? (rng_next() % 1000u) < g_permille : g_fail[cls].count(idx) != 0;
-  if (f) g_fired[cls]++;
+  if (f) { g_fired[cls]++; if (getenv("C15_TRACE")) fprintf(stderr, "fired cls=%d idx=%llu\n", cls, (unsigned long long)idx); }
   return f;
 }
 
